@@ -10,11 +10,15 @@ structure CronDS where
   defaultD  : Int := Facts.defaultCronMaxDowntimeSeconds
   maxMissed : Int := Facts.defaultCronMaxMissedSchedules
   vers      : Std.HashMap Nat JC := {}
-  worker    : Option Worker := none
+  worker    : Option Ctl := none
   /-- handler registration (Facts): add, update, delete -/
   regAdd    : Bool := Facts.cronHandlerAdd
   regUpdate : Bool := Facts.cronHandlerUpdate
   regDelete : Bool := Facts.cronHandlerDelete
+  /-- F24 shapes (Facts): Init records what it loaded, handleAdd consults the record, handleDelete forgets -/
+  records   : Bool := Facts.cronInitRecordsLoaded
+  takes     : Bool := Facts.cronHandleAddTakesLoaded
+  forgets   : Bool := Facts.cronHandleDeleteForgetsLoaded
 
 instance : Inhabited CronDS := ⟨{}⟩
 
@@ -39,43 +43,49 @@ def cronStep (s : CronDS) (t : List String) : CronDS × String :=
   | ["cron.reset", d, mm] =>
     ({ s with cfgD := int! d, maxMissed := (optInt mm).getD Facts.defaultCronMaxMissedSchedules,
               vers := {}, worker := none }, "ok")
-  | ["cron.jc", id, key, en, pe, lists, nbf, naf, lu, spec, ls] =>
+  | ["cron.jc", id, key, en, pe, lists, nbf, naf, lu, spec, ls, uid] =>
     let jc : JC := {
       key := key,   -- kept in its encoded form: keys are compared and echoed only
       sched := { enabled := bool! en, parseErr := bool! pe, exprs := parseLists lists,
                  notBefore := optInt nbf, notAfter := optInt naf, lastUpdated := optInt lu,
                  specId := nat! spec },
-      lastScheduled := optInt ls }
+      lastScheduled := optInt ls,
+      uid := uid }   -- encoded form: compared only
     ({ s with vers := s.vers.insert (nat! id) jc }, "ok")
   | ["cron.init", now, ids] =>
     let jcs := ((ids.splitOn ",").filterMap String.toNat?).filterMap (s.vers.get? ·)
-    match schedNew jcs s.cfgD s.defaultD (int! now) with
+    match ctlInit jcs s.cfgD s.defaultD (int! now) s.records with
     | none => ({ s with worker := none }, "err")
-    | some pq =>
-      ({ s with worker := some { heap := pq, lister := jcs.map (fun jc => (jc.key, jc)), chan := [] } }, "ok")
+    | some c => ({ s with worker := some c }, "ok")
   | ["cron.init", _] =>
-    match schedNew [] s.cfgD s.defaultD 0 with
+    match ctlInit [] s.cfgD s.defaultD 0 s.records with
     | none => (s, "err")
-    | some pq => ({ s with worker := some { heap := pq, lister := [], chan := [] } }, "ok")
+    | some c => ({ s with worker := some c }, "ok")
   | ["cron.tick", now] =>
     match s.worker with
     | none => (s, "panic")
-    | some w =>
+    | some c =>
       let n := int! now
-      let (w', fired, done) := work w n s.maxMissed Facts.cronFlushLimit 1000000
-      ({ s with worker := some w' }, if done then firedStr fired else "fuel-exhausted")
+      let (c', fired, done) := ctlWork c n s.maxMissed Facts.cronFlushLimit 1000000
+      ({ s with worker := some c' }, if done then firedStr fired else "fuel-exhausted")
   | ["cron.update", o, n] =>
     match s.vers.get? (nat! o), s.vers.get? (nat! n) with
     | some old, some new =>
-      ({ s with worker := s.worker.map (onUpdate · old new s.regUpdate) }, "ok")
+      ({ s with worker := s.worker.map (ctlUpdate · old new s.regUpdate) }, "ok")
     | _, _ => (s, "bad-op")
   | ["cron.delete", o] =>
     match s.vers.get? (nat! o) with
-    | some old => ({ s with worker := s.worker.map (onDelete · old s.regDelete) }, "ok")
+    | some old => ({ s with worker := s.worker.map (ctlDelete · old s.regDelete s.forgets) }, "ok")
     | none => (s, "bad-op")
   | ["cron.add", n] =>
     match s.vers.get? (nat! n) with
-    | some jc => ({ s with worker := s.worker.map (onAdd · jc s.regAdd) }, "ok")
+    | some jc => ({ s with worker := s.worker.map (ctlAdd · jc s.regAdd s.takes) }, "ok")
+    | none => (s, "bad-op")
+  -- the informer's add notification for a JobConfig that existed at boot; before `cron.init` (or
+  -- after a failed one) there is no schedule: `scheduleInitialized = 0` ⇒ the handler returns
+  | ["cron.initial-add", n] =>
+    match s.vers.get? (nat! n) with
+    | some jc => ({ s with worker := s.worker.map (ctlInitialAdd · jc s.regAdd s.takes) }, "ok")
     | none => (s, "bad-op")
   | ["cron.abort"] => (s, "ok")
   | _ => (s, "bad-op")
